@@ -42,6 +42,8 @@ pub struct Profile {
     /// percentage of iter_mut operations that write through the yielded references only after the
     /// iterator has been dropped (known finding F7)
     pub late_writes: u32,
+    /// per mille of operations that are carried out by a cleanup handler during an unrelated unwinding
+    pub unwind_w: u32,
 }
 
 const BOTH: &[Kind] = &[Kind::PQ, Kind::DPQ];
@@ -127,6 +129,7 @@ pub fn profile(prop: u8, thorough: bool) -> Profile {
         big_w: 0,
         big: false,
         late_writes: 0,
+        unwind_w: 15,
     };
     if thorough {
         p.size_w = [1, 1, 1, 1, 4, 4, 2, 1];
@@ -542,7 +545,17 @@ pub fn op_strategy(p: &Profile, kind: Kind, u: u32, dom: u8) -> BoxedStrategy<Op
         };
         v.push((*w, s));
     }
-    Union::new_weighted(v).boxed()
+    let base = Union::new_weighted(v).boxed();
+    if p.unwind_w == 0 {
+        return base;
+    }
+    // the same operation, carried out by a cleanup handler while an unrelated panic unwinds; operations that
+    // may panic by contract (reserve with an overflowing amount) stay outside
+    let wrapped = base.clone().prop_map(|op| match op {
+        Op::Reserve { amt: Amount::Huge(_), .. } | Op::WithFault { .. } | Op::DuringUnwind { .. } => op,
+        op => Op::DuringUnwind { op: Box::new(op) },
+    });
+    prop_oneof![(1000 - p.unwind_w) => base, p.unwind_w => wrapped].boxed()
 }
 
 pub const ALL_COMPS: [Comp; 42] = [
